@@ -668,8 +668,17 @@ func runC06(c *Ctx) {
 					}
 				}
 				if s, ok := r.Results[1].(*ssa.Slice); ok {
-					if k, ok := constInt(s.Low); ok && k == 1 && s.High != nil {
-						okP = true
+					if k, ok := constInt(s.Low); ok && k == 1 {
+						// b[1:n], or b[1:] of a b that has been cut to b[:n]
+						if s.High != nil {
+							okP = true
+						} else {
+							for _, l := range leavesOfIface(s.X) {
+								if in, isS := l.(*ssa.Slice); isS && in.High != nil && in.Low == nil {
+									okP = true
+								}
+							}
+						}
 					}
 				}
 			}
